@@ -27,7 +27,7 @@ META = {
         'R8 declared column types have converters/adapters and PARSE_DECLTYPES is on. R10 every row collection given to '
         'executemany inside a loop is created inside that loop iteration (no re-insertion of earlier batches).'),
     'decides': ['statement/parameter arity and order', 'column <-> model key binding', 'owner pairing', 'optional keys',
-                'rank agreement', 'default agreement', 'reader arity/order', 'type converters'],
+                'rank agreement', 'default agreement', 'reader arity/order', 'type converters', 'no shared records', 'exactly-once insertion per batch'],
     'not_decided': ['equality of stored and reported values', '_batch slicing arithmetic', 'Unicode handling (delegated to sqlite3)'],
     'assumptions': ['the binding table (wnstatic/rules/c01_bindings.py) was written from schema.sql and the LMF model and confirmed by reading'],
 }
